@@ -1169,6 +1169,11 @@ class Exec:
                             raise Unsupported(f"class attribute {cls}.{attr} is not a literal")
         return None
 
+    def ev_NamedExpr(self, e):
+        v = self.eval(e.value)
+        self.assign(e.target, v)
+        return v
+
     def ev_IfExp(self, e):
         c = self.truth(self.eval(e.test))
         if self.decide(c):
